@@ -126,7 +126,7 @@ macro_rules! c15ch {
 }
 // @h props=C15 tier=quick cap=1200 desc="auth on, v1 get(a): served iff the token grants READ for a" bounds="token: none/read/write/delete grant; tid u64"
 c15ch!(c15c_v1_get, true, K_GET);
-// @h props=C15 tier=quick cap=1200 desc="auth on, v1 cget(a): READ" bounds="token: none/read/write/delete grant; tid u64"
+// @h props=C15 tier=thorough cap=1200 desc="auth on, v1 cget(a): READ" bounds="token: none/read/write/delete grant; tid u64"
 c15ch!(c15c_v1_cget, true, K_CGET);
 // @h props=C15 tier=quick cap=1200 desc="auth on, v1 pget(a/#): READ" bounds="token: none/read/write/delete grant; tid u64"
 c15ch!(c15c_v1_pget, true, K_PGET);
@@ -134,13 +134,13 @@ c15ch!(c15c_v1_pget, true, K_PGET);
 c15ch!(c15c_v1_set, true, K_SET);
 // @h props=C15 tier=quick cap=1200 desc="auth on, v1 cset(a): WRITE" bounds="token: none/read/write/delete grant; tid u64"
 c15ch!(c15c_v1_cset, true, K_CSET);
-// @h props=C15 tier=quick cap=1200 desc="auth on, v1 spub_init(a): WRITE" bounds="token: none/read/write/delete grant; tid u64"
+// @h props=C15 tier=thorough cap=1200 desc="auth on, v1 spub_init(a): WRITE" bounds="token: none/read/write/delete grant; tid u64"
 c15ch!(c15c_v1_spub_init, true, K_SPUB_INIT);
-// @h props=C15 tier=quick cap=1200 desc="auth on, v1 publish(a): WRITE" bounds="token: none/read/write/delete grant; tid u64"
+// @h props=C15 tier=thorough cap=1200 desc="auth on, v1 publish(a): WRITE" bounds="token: none/read/write/delete grant; tid u64"
 c15ch!(c15c_v1_publish, true, K_PUBLISH);
 // @h props=C15 tier=quick cap=1200 desc="auth on, v1 subscribe(a): READ" bounds="token: none/read/write/delete grant; tid u64"
 c15ch!(c15c_v1_subscribe, true, K_SUBSCRIBE);
-// @h props=C15 tier=quick cap=1200 desc="auth on, v1 psubscribe(a/#): READ" bounds="token: none/read/write/delete grant; tid u64"
+// @h props=C15 tier=thorough cap=1200 desc="auth on, v1 psubscribe(a/#): READ" bounds="token: none/read/write/delete grant; tid u64"
 c15ch!(c15c_v1_psubscribe, true, K_PSUBSCRIBE);
 // @h props=C15 tier=quick cap=1200 desc="auth on, v1 delete(a): DELETE" bounds="token: none/read/write/delete grant; tid u64"
 c15ch!(c15c_v1_delete, true, K_DELETE);
@@ -148,15 +148,15 @@ c15ch!(c15c_v1_delete, true, K_DELETE);
 c15ch!(c15c_v1_pdelete, true, K_PDELETE);
 // @h props=C15 tier=quick cap=1200 desc="auth on, v1 ls(root): READ for ?" bounds="token: none/read/write/delete grant; tid u64"
 c15ch!(c15c_v1_ls, true, K_LS);
-// @h props=C15 tier=quick cap=1200 desc="auth on, v1 pls(root): READ for ?" bounds="token: none/read/write/delete grant; tid u64"
+// @h props=C15 tier=thorough cap=1200 desc="auth on, v1 pls(root): READ for ?" bounds="token: none/read/write/delete grant; tid u64"
 c15ch!(c15c_v1_pls, true, K_PLS);
-// @h props=C15 tier=quick cap=1200 desc="auth on, v1 subscribe_ls(root): READ for ?" bounds="token: none/read/write/delete grant; tid u64"
+// @h props=C15 tier=thorough cap=1200 desc="auth on, v1 subscribe_ls(root): READ for ?" bounds="token: none/read/write/delete grant; tid u64"
 c15ch!(c15c_v1_subscribe_ls, true, K_SUBSCRIBE_LS);
 // @h props=C15,C06 tier=quick cap=1200 desc="auth on, v1 lock(a): WRITE" bounds="token: none/read/write/delete grant; tid u64"
 c15ch!(c15c_v1_lock, true, K_LOCK);
-// @h props=C15,C06 tier=quick cap=1200 desc="auth on, v1 acquire_lock(a): WRITE" bounds="token: none/read/write/delete grant; tid u64"
+// @h props=C15,C06 tier=thorough cap=1200 desc="auth on, v1 acquire_lock(a): WRITE" bounds="token: none/read/write/delete grant; tid u64"
 c15ch!(c15c_v1_acquire_lock, true, K_ACQUIRE);
-// @h props=C15,C06 tier=quick cap=1200 desc="auth on, v1 release_lock(a): WRITE" bounds="token: none/read/write/delete grant; tid u64"
+// @h props=C15,C06 tier=thorough cap=1200 desc="auth on, v1 release_lock(a): WRITE" bounds="token: none/read/write/delete grant; tid u64"
 c15ch!(c15c_v1_release_lock, true, K_RELEASE);
 // @h props=C15 tier=thorough cap=1200 desc="auth on, v0 get(a): READ" bounds="token: none/read/write/delete grant; tid u64"
 c15ch!(c15c_v0_get, false, K_GET);
